@@ -175,6 +175,13 @@ var preds = map[string]func(any) bool{
 		u, _ := AsUint64(v)
 		return u%3 == 0
 	},
+	"rare": func(v any) bool { // passes for 1 value in 7: a Filter that often runs out of tries
+		if i, ok := AsInt64(v); ok {
+			return i%7 == 3
+		}
+		u, _ := AsUint64(v)
+		return u%7 == 3
+	},
 	"ascii": func(v any) bool {
 		s, _ := v.(string)
 		for _, r := range s {
